@@ -123,6 +123,7 @@ type Interp struct {
 	// write monitor
 	frozen     map[*Value]bool
 	frozenMaps map[*MapV]bool
+	fixedZones map[string]*Native
 	frozenHits []string
 	frozenLax  bool // value-level monitor (vfFreeze): storing the identical value back is not a change
 }
@@ -133,6 +134,7 @@ type Stats struct {
 	BranchQ      int
 	AssertQ      int
 	AssertTrivial int
+	ProbeHits     int // counterexamples found by boundary probing after a solver verdict unknown
 	FactHits     int
 	ModelHits    int
 	Summaries    int
